@@ -30,7 +30,6 @@ Proof.
     + unfold nodup. cbn [queues]. intros i j id Hi Hj.
       destruct i, j; auto; cbn in Hi, Hj; exfalso; eapply nth_error_repeat_None; eauto.
     + intros i Hi. exists O. assert (i = 0) by lia. subst. reflexivity.
-    + cbn [length]. lia.
     + constructor; [lia|]. clear. induction (Z.to_nat nodes - 1)%nat; simpl; constructor; auto. unfold POW30. lia.
     + rewrite HP by reflexivity. constructor.
   - unfold abs. apply seg_empty. rewrite HP by reflexivity. unfold tp. cbn. lia.
